@@ -268,10 +268,96 @@ func historyWL(x *mon.Ctx) {
 					c.Fail("accept", "UnmarshalBinary accepted a malformed %d-byte state (a valid one has %d bytes)", len(bad), len(st))
 					s = steps
 				}
-			default: // AppendBinary / size queries
-				name = "Size"
-				if h.Size() != 32 || h.BlockSize() != 64 {
-					c.Fail("mismatch", "Size/BlockSize = %d/%d", h.Size(), h.BlockSize())
+			default:
+				switch c.R.Intn(3) {
+				case 0: // size queries
+					name = "Size"
+					if h.Size() != 32 || h.BlockSize() != 64 {
+						c.Fail("mismatch", "Size/BlockSize = %d/%d", h.Size(), h.BlockSize())
+					}
+				case 1:
+					// AppendBinary behind a non-empty prefix (with and without spare capacity): the prefix stays, the
+					// appended state is the MarshalBinary state, importing it continues the message
+					ab, okA := h.(interface {
+						AppendBinary([]byte) ([]byte, error)
+					})
+					if !okA {
+						name = "Size"
+						break
+					}
+					name = "AppendBinary(prefix)->Unmarshal"
+					np := c.R.Intn(150)
+					if c.R.Intn(4) == 0 {
+						np = []int{1, 36, 37, 63, 64, 100, 108}[c.R.Intn(7)]
+					}
+					c.Class("hist/appendbinary/nx=%d/prefix=%s", len(model)%64, blocksClass(np))
+					prefix := c.R.Bytes(np)
+					buf := make([]byte, np, np+c.R.Intn(3)*70)
+					copy(buf, prefix)
+					for i := range buf[np:cap(buf)] {
+						buf[np:cap(buf)][i] = 0xEE // dirty spare capacity
+					}
+					var out, plain []byte
+					var err, err2 error
+					if !c.Call("AppendBinary", func() {
+						plain, err2 = h.(encoding.BinaryMarshaler).MarshalBinary()
+						out, err = ab.AppendBinary(buf)
+					}) {
+						s = steps
+						break
+					}
+					if err != nil || err2 != nil {
+						c.Fail("reject", "AppendBinary/MarshalBinary: %v / %v", err, err2)
+						break
+					}
+					if len(out) < np || !bytes.Equal(out[:np], prefix) {
+						c.Fail("mismatch", "AppendBinary changed the %d-byte prefix it was asked to append to: got %x want %x", np, out[:min(np, len(out))], prefix)
+						break
+					}
+					if !bytes.Equal(out[np:], plain) {
+						c.Fail("mismatch", "AppendBinary behind a %d-byte prefix appended %x, MarshalBinary of the same object gives %x", np, out[np:], plain)
+						break
+					}
+					h2 := sm3.New()
+					h2.Write(c.R.Bytes(c.R.Intn(100)))
+					if !c.Call("UnmarshalBinary", func() { err = h2.(encoding.BinaryUnmarshaler).UnmarshalBinary(out[np:]) }) {
+						s = steps
+						break
+					}
+					if err != nil {
+						c.Fail("reject", "UnmarshalBinary(AppendBinary(prefix)[len(prefix):]) failed: %v", err)
+						break
+					}
+					h = h2
+				default:
+					// the KDF method of a running hash object (kdf.KdfInterface, also reached by kdf.Kdf when the
+					// constructor hands out this object): the result is KDF(z, n) whatever the object absorbed
+					// before; the object is Reset afterwards (its state after Kdf is not specified)
+					ki, okK := h.(kdf.KdfInterface)
+					if !okK {
+						name = "Size"
+						break
+					}
+					name = "Kdf on the running object"
+					z := c.R.Bytes(c.R.Intn(140))
+					n := []int{1, 31, 32, 33, 96, 97, 128, 224, 225, 300}[c.R.Intn(10)]
+					c.Class("hist/kdf-on-used/nx=%d/out=%s", len(model)%64, outClass(n))
+					var got []byte
+					via := "KdfInterface.Kdf"
+					if c.R.Bool() {
+						via = "kdf.Kdf(func() hash.Hash { return h })"
+						hh := h
+						if !c.Call(via, func() { got = kdf.Kdf(func() hash.Hash { return hh }, z, n) }) {
+							s = steps
+							break
+						}
+					} else if !c.Call(via, func() { got = ki.Kdf(z, n) }) {
+						s = steps
+						break
+					}
+					c.Eq(fmt.Sprintf("%s(len(z)=%d, keyLen=%d) on an object that had absorbed %d bytes", via, len(z), n, len(model)), got, refsm3.KDF(z, n))
+					h.Reset()
+					model = model[:0]
 				}
 			}
 			ops = append(ops, name)
